@@ -78,6 +78,7 @@ def run(ctx, rep):
                                                                         optimizer_args=dict(keep_history=True)), 3))
             specs.append(("GeneticProgrammingNeuralNetRegressor", dict(optimizer=o, weights_optimizer=w, weights_optimizer_args=dict(iters=2, pop_size=6),
                                                                        optimizer_args=dict(keep_history=True)), 0))
+    n_wide = {}
     for name, kw, ncls in specs:
         seed = ctx.rng.randrange(1 << 20)
         n_iter, pop = ctx.rng.randint(2, 3), ctx.rng.randint(7, 9)
@@ -86,6 +87,9 @@ def run(ctx, rep):
         if name.startswith("GeneticProgramming") and kw.get("optimizer") in ("SelfCGP", "PDPGP"):
             pop = max(pop, 8)
         d = ctx.rng.randint(2, 4)
+        if name in ("GeneticProgrammingRegressor", "GeneticProgrammingClassifier") and n_wide.get(name, 0) % 2 == 0:
+            d = ctx.rng.choice([11, 12, 13])      # more than ten features: x10, x11, ... (names that sort before x2)
+        n_wide[name] = n_wide.get(name, 0) + 1
         labels = None
         if ncls:
             cands = [ls for ls in label_sets if len(ls) == (2 if ncls == 2 else ctx.rng.choice([2, 3]))]
